@@ -177,7 +177,7 @@ for k in ('C02', 'C03', 'C05', 'C14', 'C15', 'C16', 'C17', 'C18', 'C19', 'C20'):
 CLAIMS['C18']['text'] += " Further loops: PING floods against a transport that takes a few partial writes and then stalls, 431-answered header lists with writes blocked, tiny DATA frames that the application reads at once (the connection must go on serving)."
 CLAIMS['C09']['text'] += " Content rule: the chunk handed to the application is exactly the DATA frame's data (Pad Length octet and padding stripped, Pad Length 0 included). State c-push-limit-reached: the client's own concurrency limit reached by pushed streams."
 CLAIMS['C12']['text'] += " Read cases with Pad Length 0 / 1 / 255 for DATA and HEADERS; header-block split sweep (every pair of cut offsets, three HPACK encodings)."
-CLAIMS['C14']['text'] += " Local SETTINGS_HEADER_TABLE_SIZE sweep (X3): advertised size x leading size update in the peer's next header block, for the real server (request) and the real client (response), single updates and pairs of updates in one block (smallest-then-final, each held against the bound), 180 cases, accepted iff within the acknowledged bound."
+CLAIMS['C14']['text'] += " Local SETTINGS_HEADER_TABLE_SIZE sweep (X3): advertised size x leading size update in the peer's next header block, for the real server (request) and the real client (response), single updates and pairs of updates in one block (smallest-then-final, each held against the bound), and every update <= 4096 while the subject's SETTINGS are still unacknowledged (the default is then the bound in force, whatever smaller size was advertised), 250 cases, accepted iff within the bound in force."
 CLAIMS['C14']['text'] += " The application may push (response kept open, ended later); the sender automaton of C04 runs as an invariant (nothing is ever sent on a stream whose promise was cancelled)."
 WORK = " The quick tier is bounded by work (explicit depths / per-level execution caps, DESIGN.md 5), so that its coverage does not depend on machine speed; the thorough tier is bounded by time and claims only completed levels."
 for k in CLAIMS:
